@@ -819,13 +819,48 @@ def rule_dirtaint(F):
         cs = short(callee(tm))
         if cs in sinks:
             n += 1
-            bad = [i for i, a in enumerate(t.arg_taints(tm)) if a]
+            bad = [i for i, a in enumerate(t.arg_taints(tm)) if "DIR" in a]
             if bad:
-                labs = sorted({l for a in t.arg_taints(tm) for l in a})
-                res.bad("M-DIRTAINT:process_file:%s:%s" % (cs.rsplit("::", 1)[-1], "+".join(labs)), b.where(bb),
-                        "argument(s) %s of %s derive from %s (DIR = in/out/component directories, RELPATH = directory of the theory below the source root)" % (bad, cs, labs))
+                res.bad("M-DIRTAINT:process_file:%s:DIR" % cs.rsplit("::", 1)[-1], b.where(bb),
+                        "argument(s) %s of %s derive from the configured in/out/component directories" % (bad, cs))
             else:
                 res.ok()
+    # The symbol prefix names the exported functions and the component libraries of a theory: it must identify the theory.
+    # It is `eql_<length>_<name>`: (a) length and name must be taken from the same string (else two theories can line up),
+    # (STEM = Path::file_stem; RELPATH = anything else derived from the path of the theory file).
+    fmts = [(bb, tm) for bb, tm in b.calls() if short(callee(tm)) == "std::fmt::format"]
+    prefix_fmt = []
+    for bb, tm in fmts:
+        probe = Taint(b, {tm["dest"][0]: "PFX"}, summaries=_dir_summaries)
+        probe.run()
+        if any("PFX" in a for bb2, tm2 in b.calls() if short(callee(tm2)) == "rust_gen::display_module" for a in probe.arg_taints(tm2)):
+            prefix_fmt.append(bb)
+    if len(prefix_fmt) != 1:
+        raise AnchorError("expected one format!() whose result reaches display_module (the symbol prefix), found %d" % len(prefix_fmt))
+    fields = []
+    bb = prefix_fmt[0] - 1
+    while bb >= 0 and b.term(bb)["k"] == "call" and ("fmt::rt::Argument" in callee(b.term(bb)) or "fmt::Arguments" in callee(b.term(bb))):
+        tm = b.term(bb)
+        if "fmt::rt::Argument" in callee(tm):
+            op = tm["args"][0]
+            pl = op_place(op)
+            ty = b.local_ty(pl[0]) if pl else ""
+            fields.append((ty, {l for l in t.read_op(op) if l in ("STEM", "RELPATH")}))
+        bb -= 1
+    nums = [labs for ty, labs in fields if "usize" in ty]
+    strs = [labs for ty, labs in fields if "usize" not in ty]
+    where = b.where(prefix_fmt[0])
+    if len(nums) != 1 or len(strs) != 1:
+        raise AnchorError("symbol prefix format: expected one length and one name field, found %s" % [ty for ty, _ in fields])
+    if nums[0] == strs[0]:
+        res.ok()
+    else:
+        res.bad("M-DIRTAINT:process_file:symbol-prefix:length-and-name-differ", where,
+                "the symbol prefix takes its length field from %s and its name field from %s: prefixes of different theories can coincide" % (sorted(nums[0]), sorted(strs[0])))
+    if "RELPATH" not in strs[0]:
+        # not a finding of a listed property: two theories of the same stem in one crate clash *loudly* in both build modes
+        # (rustc: symbol already defined / duplicate link directive); see DESIGN.md section 0, observation O1
+        res.notes.append("the symbol prefix derives from the file stem only (theories of the same name in different directories of one crate clash at build time)")
     # the parallel closure: its captures must be clean except the component config / out dir, and display_ram_module's args clean
     for cl in F.closures_of(b):
         calls = [(bb, tm) for bb, tm in cl.calls() if short(callee(tm)) in sinks]
@@ -845,7 +880,7 @@ def rule_dirtaint(F):
         tc.run()
         for bb, tm in calls:
             n += 1
-            bad = [i for i, a in enumerate(tc.arg_taints(tm)) if a]
+            bad = [i for i, a in enumerate(tc.arg_taints(tm)) if "DIR" in a]
             if bad:
                 res.bad("M-DIRTAINT:closure:%s" % short(callee(tm)).rsplit("::", 1)[-1], cl.where(bb), "argument(s) %s of %s derive from the directory configuration" % (bad, short(callee(tm))))
             else:
@@ -865,7 +900,7 @@ def _dir_summaries(c, arg_taints, t):
     if any(x.endswith(sfx) for x in (cs, raw) for sfx in ("::with_context", "::context", "::map_err", "::ok_or_else", "::expect", "::unwrap_or_else")):
         return set(arg_taints[0]) if arg_taints else set()   # the closure / message only shapes the error value
     if cs in ("std::path::Path::file_stem", "std::path::Path::file_name"):
-        return set()          # the name of the theory file, without its directory
+        return {"STEM"}       # the name of the theory file, without its directory
     if cs in ("std::fs::read_to_string", "std::fs::read"):
         return set()          # content of the file, not its location
     if cs in ("build::read_digest", "build::remove_digest", "build::write_digest", "std::fs::create_dir_all", "std::fs::write"):
